@@ -182,11 +182,13 @@ class C11(Prop):
     known_matchers = {
         "F9": lambda spec, sig, msg: sig == "arith.add.single_node_returns_second" and _is_single(spec),
         "F13": lambda spec, sig, msg: sig == "todense.default_order.dummy_tree.KeyError" and _may_have_dummy(spec),
+        "F41": lambda spec, sig, msg: sig == "ttno.ambiguous_symbol_join" and
+        sum(s["k"] == "sho" for s in spec["tree"]["model"]["sites"]) >= 2,
         "F40": lambda spec, sig, msg: sig == "expectation.multi_component_qn.ValueError" and gen.qn_size(spec["tree"]["model"]) >= 2,
     }
 
     def budget(self, tier):
-        return dict(examples=640, shards=16) if tier == "quick" else dict(examples=16000, shards=16)
+        return dict(examples=960, shards=16) if tier == "quick" else dict(examples=16000, shards=16)
 
     def strategy(self, tier):
         return cases(tier)
